@@ -405,6 +405,7 @@ class Stats:
         self.nontrivial = set()
         self.evals = 0
         self.measured = {"global_stress": [], "local_neighbour_error": [], "moments": []}
+        self.step_budget = 120
 
     def count(self, key):
         self.hist[key] = self.hist.get(key, 0) + 1
@@ -471,6 +472,7 @@ def eval_spe(ctx, exe, mexe, cases, st):
     spec_blocks = model_blocks(ctx, mexe, "".join(text_spec), len(text_spec))
     mod_blocks = model_blocks(ctx, mexe, "".join(text_model), len(text_model))
     bi = 0
+    step_jobs = []
     for (c, r), (nu, k, T, ok_shape) in zip(todo, meta):
         pc = public(c)
         if not ok_shape:
@@ -545,10 +547,52 @@ def eval_spe(ctx, exe, mexe, cases, st):
                 if abs(s0 - s1) > 1e-9 * scale * max(1, T):
                     ctx.mismatch(pc, "centroid of the configuration moved: %.17g -> %.17g" % (s0, s1))
                     break
+            if outs and outs[0]["pairs"] and len(step_jobs) < st.step_budget:
+                step_jobs.append((c, r, outs[0]["pairs"]))
         if T >= 2 and nu >= 1:
             st.nontrivial.add(json.dumps([c["N"], c["global"], c["nupd"], c["maxiter"], c["shseed"], c["useed"], c["umode"]]))
         if len(st.samples) < 3:
             st.samples.append({k2: pc[k2] for k2 in ("kind", "N", "D", "d", "global", "k", "nupd", "maxiter", "umode", "nbm")})
+
+
+    # the binary64 replay above is a transcription of spe_step: cross-check it against the EXTRACTED spe_step
+    # (exact rationals) on the first iteration of each case, feeding the norms as value oracles
+    if step_jobs:
+        text, expect = [], []
+        for c, r, ps in step_jobs:
+            N, d = c["N"], c["d"]
+            Y = r["Y0"]
+            R = r["R"]
+            mx = max((R[i][j] for i in range(N) for j in range(i + 1, N)), default=0.0)
+            alpha = (1.0 / mx * math.sqrt(2.0)) if c["global"] else 1.0
+            Dn = [math.sqrt(sum((Y[a][t] - Y[b][t]) ** 2 for t in range(d))) for a, b in ps]
+            Rt = [alpha * R[a][b] for a, b in ps]
+            # contract of the sqrt oracle on the values handed to the model
+            for (a, b), dn in zip(ps, Dn):
+                sq = sum((Fraction(Y[a][t]) - Fraction(Y[b][t])) ** 2 for t in range(d))
+                if abs(Fraction(dn) ** 2 - sq) > Fraction(1, 10 ** 12) * max(sq, Fraction(1, 10 ** 300)):
+                    ctx.note("sqrt oracle contract off by more than 1e-12 in case %s" % c["id"])
+            t = ["STEP %d %d 1/1 %s" % (d, N, frac_str(c["tol"])),
+                 "PS " + " ".join("%d:%d" % p for p in ps),
+                 "RT " + " ".join(frac_str(x) for x in Rt),
+                 "DN " + " ".join(frac_str(x) for x in Dn)]
+            for row in Y:
+                t.append("Y " + " ".join(frac_str(v) for v in row))
+            text.append("\n".join(t) + "\n")
+            one = dict(c)
+            expect.append(replay_coordinates(one, r, [ps]))
+        blocks = model_blocks(ctx, mexe, "".join(text), len(text))
+        for (c, r, ps), b, Yf in zip(step_jobs, blocks, expect):
+            st.count("SPE/extracted-step-crosscheck")
+            try:
+                rows = [[float(Fraction(x)) for x in line.split()[1:]] for line in b if line.startswith("ROW")]
+                worst = max(abs(a - m) / max(1.0, abs(a), abs(m)) for ra, rm in zip(Yf, rows) for a, m in zip(ra, rm))
+                ok = len(rows) == c["N"] and worst <= 1e-12
+            except (ValueError, ZeroDivisionError):
+                ok, worst = False, float("nan")
+            if not ok:
+                ctx.mismatch(public(c), "binary64 transcription of the update differs from the extracted spe_step on the first "
+                                        "iteration by %.3g relative" % worst)
 
 
 def eval_pairs(ctx, exe, mexe, cases, st):
